@@ -226,8 +226,18 @@ def main(argv=None):
             u = units[i]
             fd = u.split if u.split else None
             pending.add(ex.submit(_run_task, (prop, tier, seed, i, [], fd)))
+        # a run that does not end (a change to rig can make a harness
+        # branch on every bit of a 32-bit value) is cut off and reported as
+        # inconclusive rather than left running
+        wall_cap = float(os.environ.get(
+            "VERIF_WALL_S", "1800" if tier == "quick" else "21600"))
         while pending:
-            done, pending = cf.wait(pending, return_when=cf.FIRST_COMPLETED)
+            done, pending = cf.wait(pending, timeout=5,
+                                    return_when=cf.FIRST_COMPLETED)
+            if time.time() - t0 > wall_cap and not E.STOP_EVENT[0].is_set():
+                E.STOP_EVENT[0].set()
+                problems.append("wall-clock budget of %d s exceeded: the "
+                                "remaining units were abandoned" % wall_cap)
             for f in done:
                 try:
                     r = f.result()
